@@ -100,7 +100,11 @@ Lowers07(t) == {
   Single("a", S(t)), Single("a", Single("b", S(t))), Single("l", L(<<S(t)>>)), Single("l", L(<<I("1"), S(t)>>)),
   Mk2("a", I("1"), "o", Mk2("$output", False, "x", S(t))), Single(t, I("1")), Single("a", Single(t, I("1"))),
   Single("l", L(<<Single(t, I("1"))>>)), Single("e", Mk2("$encode", S("join"), "$value", L(<<S(t)>>))),
-  Single("v", Single("$value", S(t))), L(<<S(t)>>), Mk2("a", S(t), "$output", True) }
+  Single("v", Single("$value", S(t))), L(<<S(t)>>), Mk2("a", S(t), "$output", True),
+  (* a selected subtree below an excluded one is still emitted, so it is still validated *)
+  Mk2("a", I("1"), "o", Mk2("$output", False, "in", Mk2("$output", True, "x", S(t)))),
+  Mk2("$output", False, "in", Mk2("$output", True, "x", S(t))),
+  Mk2("a", I("1"), "o", Mk2("$output", False, "in", Mk2("$output", True, t, I("1")))) }
 Uppers07 == {
   EmptyMap, Single("a", I("1")), Single("a", Null), Single("a", Single("b", I("2"))), Single("l", L(<<I("3")>>)),
   Single("l", EmptyList), Single("l", Null), Single("z", I("1")), Single("a", S("$delete")),
@@ -285,6 +289,10 @@ CasesC12(lazy) ==
   \cup {Case(<<Single("l", L(<<S("a"), Body12 %% Single("$repeat", I(NatStr(n))), S("z")>>))>>, NoEnv, "list") : n \in Counts}
   \cup {Case(<<Single("m", Mk2("$\"k{$repeat}\"", Body12 %% Single("$repeat", I(NatStr(n))), "other", I("1")))>>, NoEnv, "map") : n \in Counts}
   \cup {Case(<<L(<<Single("$repeat", I(NatStr(n))), S("$repeat"), S("$\"e{$repeat}\"")>>)>>, NoEnv, "rootlist") : n \in Counts}
+  \cup {Case(<<L(<<S("$repeat")>> \o (IF pos = 2 THEN <<Single("$repeat", I(NatStr(n)))>> ELSE <<>>) \o <<S("$\"e{$repeat}\"")>>
+                   \o (IF pos = 3 THEN <<Single("$repeat", I(NatStr(n)))>> ELSE <<>>))>>, NoEnv, "rootlistpos") : n \in Counts, pos \in {2, 3}}
+  \cup {Case(<<L(<<S("$repeat"), S("$\"e{$repeat}\"")>>), L(<<Single("$repeat", I(NatStr(n)))>>)>>, NoEnv, "rootlistlayer") : n \in Counts}
+  \cup {Case(<<L(<<I("7"), Single("$repeat", I(NatStr(n)))>>)>>, NoEnv, "rootlistplain") : n \in Counts}
   \cup {Case(<<Body12 %% Single("$repeat", I("1")), Single("$repeat", I(NatStr(n)))>>, NoEnv, "override") : n \in Counts}
   \cup {Case(<<Nest12(n, m)>>, NoEnv, "nested") : n \in 0..2, m \in 0..2}
   \cup {Case(<<Single("l", L(<<Mk3("$repeat", I(NatStr(n)), "in", L(<<Mk2("$repeat", I("2"), "j", S("$repeat"))>>), "out", S("$repeat"))>>))>>, NoEnv, "nestedlist") : n \in 0..2}
@@ -311,6 +319,17 @@ LawC12(cs) ==
     [] cs.tag = "rootlist" ->
          LET k == CountOf(At(Elems(d)[1], "$repeat")) IN
          Eval1(d) = Ok([i \in 1..k |-> L(<<I(NatStr(i - 1)), S("e" \o NatStr(i - 1))>>)])
+    [] cs.tag = "rootlistpos" ->
+         LET e == CHOOSE x \in Range(Elems(d)) : IsMap(x)
+             k == CountOf(At(e, "$repeat")) IN
+         Eval1(d) = Ok([i \in 1..k |-> L(<<I(NatStr(i - 1)), S("e" \o NatStr(i - 1))>>)])
+    [] cs.tag = "rootlistlayer" ->
+         LET m == Merge(cs.docs[1], cs.docs[2])
+             k == CountOf(At(Elems(cs.docs[2])[1], "$repeat")) IN
+         m.ok /\ Eval1(m.v) = Ok([i \in 1..k |-> L(<<I(NatStr(i - 1)), S("e" \o NatStr(i - 1))>>)])
+    [] cs.tag = "rootlistplain" ->
+         LET k == CountOf(At(Elems(d)[2], "$repeat")) IN
+         Eval1(d) = Ok([i \in 1..k |-> L(<<I("7")>>)])
     [] cs.tag = "override" ->
          LET m == Merge(cs.docs[1], cs.docs[2]) IN
          IF ~m.ok THEN CountOf(At(cs.docs[2], "$repeat")) = 1      \* only the same count is rejected
@@ -452,7 +471,7 @@ Law(cs) == CASE Family = "C14" -> LawC14(cs) [] Family = "C08" -> LawC08(cs) [] 
              [] Family = "C11" -> LawC11(cs) [] Family = "C12" -> LawC12(cs) [] Family = "C13" -> LawC13(cs)
 
 (* chains (C06 layered, C07, C12 override) are layered first, as two layers of one file chain *)
-IsChain(cs) == cs.tag \in {"layered", "chain07", "override"} \/ (Family = "C07")
+IsChain(cs) == cs.tag \in {"layered", "chain07", "override", "rootlistlayer"} \/ (Family = "C07")
 Result(cs) ==
   IF IsChain(cs) THEN
      LET m == Merge(cs.docs[1], cs.docs[2]) IN
